@@ -37,6 +37,14 @@ impl<'a> SendTransactionsProofProcess<'a> {
 
     pub(crate) fn execute(self) -> Status {
         let status = self.execute_internally();
+        if !status.is_ok() {
+            // The response is rejected, so the items of the request have to be fetched again from
+            // other peers (this peer may be banned); otherwise they would be "fetching" forever
+            // since the request is going to be removed.
+            self.protocol
+                .peers()
+                .mark_fetching_txs_timeout(self.peer_index);
+        }
         self.protocol
             .peers()
             .update_txs_proof_request(self.peer_index, None);
